@@ -373,13 +373,11 @@ namespace avel {
             return lhs;
         }
 
-        /*
         [[nodiscard]]
         AVEL_FINL friend Vector operator%(Vector lhs, Vector rhs) {
             lhs %= rhs;
             return lhs;
         }
-        */
 
         //=================================================
         // Increment/Decrement operators
@@ -695,6 +693,17 @@ namespace avel {
         #elif defined(AVEL_AVX512F)
         return blend(avel::isnan(b), a, avel::min(b, a));
         #endif
+    }
+
+    [[nodiscard]]
+    AVEL_FINL vec16x32f fmod(vec16x32f a, vec16x32f b) {
+        // No vectorized remainder yet: each lane is evaluated with the scalar overload
+        auto x = to_array(a);
+        auto y = to_array(b);
+        for (std::uint32_t i = 0; i < vec16x32f::width; ++i) {
+            x[i] = avel::fmod(x[i], y[i]);
+        }
+        return vec16x32f{x};
     }
 
     [[nodiscard]]
